@@ -522,39 +522,62 @@ class IntroVisitor(_ScopedVisitor):
             # Just handling functions, not modules.
             # Handling modules is more complicated (requires tracing the full call) and it can be easily worked around
             # by directly importing the function.
-            if isinstance(obj, (FunctionType,)):
-                # Building a fake AST node to handle functions called without arguments. They may not
-                _logger.debug(f"visit_name: {node} {pformat(node)} {self._store_names}")
-                # No arg given
-                call_node = ast.Call(
-                    func=node, args=[], keywords=[], starargs=None, kwargs=None
-                )
-                # This is a bit brute-force (not working for multi-line function calls)
-                # but it should be good enough in practice for most cases.
-                # TODO: refine it based of the nested parse tree?
-                function_body_hash = dds_hash(self._body_lines[: node.lineno + 1])
-                # The list of all the previous interactions.
-                # This enforces the concept that the current call depends on previous calls.
-                function_inters_sig: Optional[PyHash] = dds_hash_commut(
-                    _fis_to_siglist(self.inters) + self._loads_siglist()
-                )
-                # Check the call for dds calls or sub_calls.
-                fi_or_p = InspectFunction.inspect_call(
-                    call_node,
-                    self._gctx,
-                    self._start_mod,
-                    function_body_hash,
-                    self._input_sig,
-                    function_inters_sig,
-                    self._scope_locals,
-                    self._call_stack,
-                )
-                if fi_or_p is not None and isinstance(fi_or_p, FunctionInteractions):
-                    self.inters.append(fi_or_p)
-                # str is the underlying type of a DDSPath
-                if fi_or_p is not None and isinstance(fi_or_p, str):
-                    self.load_paths.append(fi_or_p)
+            if isinstance(obj, FunctionType) or inspect.isclass(obj):
+                self._inspect_reference(node)
 
+        self.generic_visit(node)
+
+    def _inspect_reference(self, node: Union[ast.Name, ast.Attribute]) -> None:
+        # A function (or a class) that is referenced, not called: it is analysed as a call without arguments.
+        # Building a fake AST node to handle functions called without arguments.
+        call_node = ast.Call(func=node, args=[], keywords=[], starargs=None, kwargs=None)
+        # This is a bit brute-force (not working for multi-line function calls)
+        # but it should be good enough in practice for most cases.
+        # TODO: refine it based of the nested parse tree?
+        function_body_hash = dds_hash(self._body_lines[: node.lineno + 1])
+        # The list of all the previous interactions.
+        # This enforces the concept that the current call depends on previous calls.
+        function_inters_sig: Optional[PyHash] = dds_hash_commut(
+            _fis_to_siglist(self.inters) + self._loads_siglist()
+        )
+        # Check the call for dds calls or sub_calls.
+        fi_or_p = InspectFunction.inspect_call(
+            call_node,
+            self._gctx,
+            self._start_mod,
+            function_body_hash,
+            self._input_sig,
+            function_inters_sig,
+            self._scope_locals,
+            self._call_stack,
+        )
+        if fi_or_p is not None and isinstance(fi_or_p, FunctionInteractions):
+            self.inters.append(fi_or_p)
+        # str is the underlying type of a DDSPath
+        if fi_or_p is not None and isinstance(fi_or_p, str):
+            self.load_paths.append(fi_or_p)
+
+    def visit_Attribute(self, node: ast.Attribute) -> Any:
+        # A function or a class that is referenced (not called) through a module or a class:
+        # hof(conf.fun), fs = [pkg.conf.fun], hof(Cls.static_method)
+        parts = _attribute_chain(node)
+        root = IntroVisitor._get_call_root(node)
+        if (
+            parts is not None
+            and root is not None
+            and isinstance(node.ctx, ast.Load)
+            and id(root) not in self._called_nodes
+            and parts[0] in self._start_mod.__dict__
+            and parts[0] not in python_builtin_names
+            and LocalVar(parts[0]) not in self._scope_locals
+            and LocalVar("/".join(parts)) not in self._store_names
+        ):
+            z = _referenced_callable(parts, self._start_mod, self._gctx)
+            if z is not None:
+                self._store_names.add(LocalVar("/".join(parts)))
+                # The head of the chain is not analysed again as a name.
+                self._called_nodes.add(id(root))
+                self._inspect_reference(node)
         self.generic_visit(node)
 
     @staticmethod
@@ -721,6 +744,23 @@ def _attribute_chain(node: ast.AST) -> Optional[List[str]]:
     if isinstance(node, ast.Attribute):
         head = _attribute_chain(node.value)
         return None if head is None else head + [node.attr]
+    return None
+
+
+def _referenced_callable(
+    parts: List[str], mod: ModuleType, gctx: EvalMainContext
+) -> Optional[AuthorizedObject]:
+    # The function or the class of an accepted module that a chain of attributes a.b.c leads to (None for
+    # anything else, and for the functions of dds itself, which are only understood when they are called).
+    z = ObjectRetrieval.retrieve_object(
+        LocalDepPath(PurePosixPath("/".join(parts))), mod, gctx
+    )
+    if (
+        isinstance(z, AuthorizedObject)
+        and (isinstance(z.object_val, FunctionType) or inspect.isclass(z.object_val))
+        and CanonicalPathUtils.head(z.resolved_path) != "dds"
+    ):
+        return z
     return None
 
 
